@@ -9,6 +9,8 @@
  *                   seq      the same trial function on elements 0..n-1, one after another, in the calling thread
  *                   rev      the same, elements n-1..0
  *                   fresh    every trial in a newly created thread of its own (no earlier trial on that thread)
+ *                   solo     every trial ALONE: a one-trial cimba_run_experiment in a forked child process (fresh worker,
+ *                            nothing inherited) - the oracle for "the outcome does not depend on what ran before"
  *         W         number of worker threads reported by cmi_cpu_cores() (0: the real function from the library)
  *         n         number of trials;  size: sizeof one trial struct in bytes (>= 64, need not be a multiple of 8)
  *         seed      experiment seed; trial i gets parameter seed mix(seed, i)
@@ -33,7 +35,10 @@
 #include <stdlib.h>
 #include <string.h>
 #include <time.h>
+#include <sys/mman.h>
 #include <sys/sysinfo.h>
+#include <sys/wait.h>
+#include <unistd.h>
 #include <xmmintrin.h>
 
 #include "cimba.h"
@@ -48,7 +53,10 @@
 #define K_TIE    0x080u   /* two equal-priority processes queue for a held resource at the same instant */
 #define K_LOGKEEP 0x100u  /* logs with user flag 1 WITHOUT setting its flags first; odd trials switch the flag off */
 #define K_POLLUTE 0x200u  /* with K_TIE: even trials only malloc process-sized blocks and free them in descending address order */
-#define K_MIX    0x800u   /* vary the mask per trial (derived from the trial's seed) */
+#define K_SAMESEED 0x400u /* all trials of the experiment get the SAME seed parameter (common random numbers) */
+#define K_MIX    0x800u
+#define K_SEED3  0x1000u  /* seeds repeat with period 3 over the trial index */
+#define K_TERM   0x2000u  /* odd trials call cmb_random_terminate() before they return */   /* vary the mask per trial (derived from the trial's seed) */
 
 #define USERFLAG1 UINT32_C(0x00000001)
 #define USERFLAG2 UINT32_C(0x00000002)
@@ -450,8 +458,11 @@ static void simulate(struct trial_hdr *t)
         }
         free(logbuf);
     }
-    /* no cmb_random_terminate(): nothing obliges a trial to call it, and the next trial on this thread must be independent
-     * of the generator state left here */
+    /* the outcome includes where the stream stands: the next raw 64 bits */
+    w.h = fnv(w.h, cmb_random_sfc64());
+    /* normally no cmb_random_terminate(): nothing obliges a trial to call it, and the next trial on this thread must be
+     * independent of the generator state left here; with K_TERM the odd trials do call it */
+    if ((t->kinds & K_TERM) && (t->idx_param & 1u)) cmb_random_terminate();
     t->digest = w.h;
 }
 
@@ -542,7 +553,12 @@ static int one_experiment(const char *mode, unsigned W, uint64_t n, uint64_t sz,
     }
     g_W = W; g_n = n; g_sz = sz;
     const size_t total = (size_t)(n + GUARD_ELEMS) * sz;
-    unsigned char *raw = malloc(total + 64);
+    const int solo = strcmp(mode, "solo") == 0;
+    /* solo: every trial is run ALONE, as a one-trial experiment in a forked child (a fresh worker thread in a process that
+     * has never run a trial); the children write their element through a shared mapping */
+    unsigned char *raw = solo ? mmap(NULL, total + 64, PROT_READ | PROT_WRITE, MAP_SHARED | MAP_ANONYMOUS, -1, 0)
+                              : malloc(total + 64);
+    if (raw == NULL || raw == MAP_FAILED) { fprintf(stderr, "allocation failed\n"); return 2; }
     memset(raw, 0xA5, total + 64);
     g_base = raw + 8;                                   /* elements need not be aligned to their size */
     g_calls = calloc(n + GUARD_ELEMS, sizeof *g_calls);
@@ -552,7 +568,8 @@ static int one_experiment(const char *mode, unsigned W, uint64_t n, uint64_t sz,
     for (uint64_t i = 0; i < n + GUARD_ELEMS; i++) {
         struct trial_hdr t;
         memset(&t, 0, sizeof t);
-        t.magic = MAGIC; t.idx_param = i; t.seed = mix64(seed * 1000003u + i) | 1u; t.kinds = kinds;
+        const uint64_t si = (kinds & K_SAMESEED) ? 0u : (kinds & K_SEED3) ? i % 3u : i;
+        t.magic = MAGIC; t.idx_param = i; t.seed = mix64(seed * 1000003u + si) | 1u; t.kinds = kinds;
         t.delay_us = delay_for(pat, dmax, seed, i, n);
         memcpy(g_base + i * sz, &t, sizeof t);
     }
@@ -568,6 +585,30 @@ static int one_experiment(const char *mode, unsigned W, uint64_t n, uint64_t sz,
             trial_func(g_base + i * sz);
         }
         ended_at_return = __atomic_load_n(&g_ended, __ATOMIC_SEQ_CST);
+    }
+    else if (solo) {
+        fflush(stdout);
+        for (uint64_t i = 0; i < n; i++) {
+            const pid_t pid = fork();
+            if (pid == 0) {
+                g_W = W ? W : 1;
+                cimba_run_experiment(g_base + i * sz, 1, sz, trial_func);   /* the child's experiment is this one element */
+                _exit(0);
+            }
+            int status = 0;
+            if (pid < 0 || waitpid(pid, &status, 0) < 0 || !WIFEXITED(status) || WEXITSTATUS(status) != 0) {
+                fprintf(stderr, "solo child for trial %" PRIu64 " failed (status %d)\n", i, status);
+                return 3;
+            }
+        }
+        /* the counters live in the children: reconstruct them from what the children stored in their elements */
+        for (uint64_t i = 0; i < n; i++) {
+            struct trial_hdr t;
+            memcpy(&t, g_base + i * sz, sizeof t);
+            g_calls[i] = (uint32_t)t.ncalls;
+            g_ended += t.ncalls;
+        }
+        ended_at_return = g_ended;
     }
     else if (strcmp(mode, "fresh") == 0) {
         for (uint64_t i = 0; i < n; i++) {
@@ -615,7 +656,8 @@ static int one_experiment(const char *mode, unsigned W, uint64_t n, uint64_t sz,
     }
     printf("R %" PRIu64 " %" PRIu64 " %d\n", ended_at_return, g_extra, guard_ok);
     fflush(stdout);
-    free(ths); free(g_ev); free(g_calls); free(g_notown); free(raw);
+    free(ths); free(g_ev); free(g_calls); free(g_notown);
+    if (solo) munmap(raw, total + 64); else free(raw);
     g_ev = NULL; g_calls = NULL; g_notown = NULL; g_base = NULL;
     return 0;
 }
